@@ -1,3 +1,4 @@
+import inspect
 import math
 from collections.abc import Callable, Container, Iterable
 from dataclasses import dataclass
@@ -137,7 +138,10 @@ def all_p[T](predicate: Predicate[T]) -> AllPredicate[T]:
 
 def lazy_p(ref: str) -> LazyPredicate:
     """Return True if the predicate holds for each item in the iterable, otherwise False."""
-    return LazyPredicate(ref=ref)
+    predicate = LazyPredicate(ref=ref)
+    caller = inspect.currentframe().f_back  # type: ignore[union-attr]
+    predicate.scope = caller.f_globals if caller else None  # type: ignore[attr-defined]
+    return predicate
 
 
 def is_instance_p(*klass: type) -> Predicate:
